@@ -40,7 +40,9 @@ def cases(tier, seed):
         for s0 in range(0, S, 4):
             yield {"kind": "medium", "k": k, "n": k * mult + (1 if mult == 7 else 0) * 0, "seeds": list(range(s0, s0 + 4))}
     # one large batch for balanced prediction (an implementation that works block-wise is only wrong beyond its block size)
-    yield {"kind": "bigbatch", "k": 3, "m": 1201 if tier == "quick" else 2050, "strategy": "distance"}
+    # (sizes just above 1000 with n mod k in {0, 1, 2}: per-block leftovers would add up to more than one extra point)
+    for m_ in (1002, 1004, 1101) + ((2050,) if tier == "thorough" else ()):
+        yield {"kind": "bigbatch", "k": 3, "m": m_, "strategy": "distance"}
     # every initial label vector (kmeans0=False) on a few data sets
     datasets = [[[0.0], [1.0], [2.0], [3.0], [4.0]], [[0.0], [0.0], [1.0], [3.0], [3.0]],
                 [[0.0, 0.0], [1.0, 0.0], [0.0, 1.0], [2.0, 2.0], [2.0, 1.0]],
